@@ -178,20 +178,27 @@ package resources
 //@     invariant claim.Status.ReservedFor == old(claim.Status.ReservedFor)
 //@     invariant len(newReservedFor) <= rangeindex + 1
 //@     invariant forall j int :: 0 <= j && j < len(newReservedFor) ==> !(newReservedFor[j].Name == pod.Name && newReservedFor[j].UID == pod.UID && newReservedFor[j].Resource == "pods" && newReservedFor[j].APIGroup == "")
-//@     invariant forall i int :: 0 <= i && i <= rangeindex && !isPodRef(claim, i, pod) ==> (exists j int :: 0 <= j && j < len(newReservedFor) && newReservedFor[j].APIGroup == claim.Status.ReservedFor[i].APIGroup && newReservedFor[j].Resource == claim.Status.ReservedFor[i].Resource && newReservedFor[j].Name == claim.Status.ReservedFor[i].Name && newReservedFor[j].UID == claim.Status.ReservedFor[i].UID)
-//@     invariant len(newReservedFor) == (count i in range(0, rangeindex + 1) :: !isPodRef(claim, i, pod))
+//@     invariant forall i int :: 0 <= i && i <= rangeindex && !old(isPodRef(claim, i, pod)) ==> (exists j int :: 0 <= j && j < len(newReservedFor) && newReservedFor[j].APIGroup == old(claim.Status.ReservedFor[i].APIGroup) && newReservedFor[j].Resource == old(claim.Status.ReservedFor[i].Resource) && newReservedFor[j].Name == old(claim.Status.ReservedFor[i].Name) && newReservedFor[j].UID == old(claim.Status.ReservedFor[i].UID))
+//@     invariant forall j int :: 0 <= j && j < len(newReservedFor) ==> (exists i int :: 0 <= i && i <= rangeindex && !old(isPodRef(claim, i, pod)) && newReservedFor[j].APIGroup == old(claim.Status.ReservedFor[i].APIGroup) && newReservedFor[j].Resource == old(claim.Status.ReservedFor[i].Resource) && newReservedFor[j].Name == old(claim.Status.ReservedFor[i].Name) && newReservedFor[j].UID == old(claim.Status.ReservedFor[i].UID))
+//@     invariant len(newReservedFor) == (count i in range(0, rangeindex + 1) :: !old(isPodRef(claim, i, pod)))
+//@     invariant len(newReservedFor) == rangeindex + 1 || (exists k int :: 0 <= k && k <= rangeindex && old(isPodRef(claim, k, pod)))
+//@     invariant forall k int :: 0 <= k && k <= rangeindex && old(isPodRef(claim, k, pod)) ==> len(newReservedFor) <= rangeindex
 //@     decreases len(claim.Status.ReservedFor) - rangeindex
 //@   ensures [pod-no-longer-consumer] !claimReservedFor(claim, pod)
-//@   note NOT proved (engine: the loop invariant "every kept entry was listed: forall j exists i <= rangeindex" stays `unknown` after 180 s, nested exists under forall over a freshly appended struct array): the converse inclusion "an entry listed afterwards was listed before"; what IS proved bounds it: the length equals the number of non-pod entries before, and each of those is still listed
+//@   ensures [kept-entries-were-listed] forall g string, r string, n string, u types.UID :: hasRef(claim, g, r, n, u) ==> old(hasRef(claim, g, r, n, u)) && !isPodQuad(pod, g, r, n, u)
 //@   ensures [every-other-consumer-kept] forall g string, r string, n string, u types.UID :: old(hasRef(claim, g, r, n, u)) && !isPodQuad(pod, g, r, n, u) ==> hasRef(claim, g, r, n, u)
 //@   ensures [exactly-the-pod-entries-dropped] len(claim.Status.ReservedFor) == (count i in range(0, old(len(claim.Status.ReservedFor))) :: !old(isPodRef(claim, i, pod)))
 //@   ensures [never-grows] len(claim.Status.ReservedFor) <= old(len(claim.Status.ReservedFor))
+//@   ensures [shrinks-iff-pod-was-listed] (len(claim.Status.ReservedFor) < old(len(claim.Status.ReservedFor))) == old(claimReservedFor(claim, pod))
 //@ end
 
 // which API object a pod-level claim reference names: the direct name, else (template claims) the generated name the
 // pod status records for that reference - the FIRST status entry with that name and a recorded claim name.
 //@ define rcStatusHit(pod *v1.Pod, n string, i int) bool = pod.Status.ResourceClaimStatuses[i].Name == n && pod.Status.ResourceClaimStatuses[i].ResourceClaimName != nil
 //@ define rcFirstHit(pod *v1.Pod, n string, i int) bool = 0 <= i && i < len(pod.Status.ResourceClaimStatuses) && rcStatusHit(pod, n, i) && (forall j int :: 0 <= j && j < i ==> !rcStatusHit(pod, n, j))
+// rcResolves(pod, pc, name): the reference pc of pod names the API object `name`; rcResolvable: it names one at all
+//@ define rcResolves(pod *v1.Pod, pc *v1.PodResourceClaim, name string) bool = (pc.ResourceClaimName != nil && name == *pc.ResourceClaimName) || (pc.ResourceClaimName == nil && pc.ResourceClaimTemplateName != nil && (exists i int :: rcFirstHit(pod, pc.Name, i) && name == *pod.Status.ResourceClaimStatuses[i].ResourceClaimName))
+//@ define rcResolvable(pod *v1.Pod, pc *v1.PodResourceClaim) bool = pc.ResourceClaimName != nil || (pc.ResourceClaimTemplateName != nil && (exists i int :: 0 <= i && i < len(pod.Status.ResourceClaimStatuses) && rcStatusHit(pod, pc.Name, i)))
 //@ func GetResourceClaimName
 //@   props C13 C12 C10 C04
 //@   requires pod != nil && podClaim != nil
@@ -205,6 +212,9 @@ package resources
 //@   ensures [template-resolved-iff-recorded] podClaim.ResourceClaimName == nil && podClaim.ResourceClaimTemplateName != nil ==> ((result1 == nil) == (exists i int :: 0 <= i && i < len(pod.Status.ResourceClaimStatuses) && rcStatusHit(pod, podClaim.Name, i)))
 //@   ensures [template-name-is-first-recorded] podClaim.ResourceClaimName == nil && result1 == nil ==> (forall i int :: rcFirstHit(pod, podClaim.Name, i) ==> result0 == *pod.Status.ResourceClaimStatuses[i].ResourceClaimName)
 //@   ensures [error-has-no-name] result1 != nil ==> result0 == ""
+//@   ensures [error-iff-unresolvable] (result1 == nil) == rcResolvable(pod, podClaim)
+//@   ensures [result-is-a-resolution] result1 == nil ==> rcResolves(pod, podClaim, result0)
+//@   ensures [resolution-is-functional] result1 == nil ==> (forall name string :: rcResolves(pod, podClaim, name) ==> name == result0)
 //@ end
 
 // a claim asks for a GPU: one of its exact device requests names a device class containing "gpu" (case-insensitive)
